@@ -58,6 +58,11 @@ pub(crate) mod evlog {
         }
     }
 
+    thread_local! {
+        /// Who is running `try_spawn_input_processing` on this thread: 0 = `add_input_sections`, b + 1 = bucket b.
+        pub(crate) static CTX: std::cell::Cell<u64> = const { std::cell::Cell::new(0) };
+    }
+
     /// Holds the log mutex; used to make `atomic operation + append` one step.
     pub(crate) struct Held(Option<MutexGuard<'static, Vec<(u8, u64, u64)>>>);
 
